@@ -8,7 +8,7 @@ Not decided: that the set of monomials is the mathematical one (F-C20b in DESIGN
 import ast
 import copy
 
-from ..model import walk_shallow, call_name, is_self_attr, dotted_name, parent, ancestors, enclosing_function
+from ..model import walk_shallow, call_name, is_self_attr, dotted_name, parent, ancestors, enclosing_function, rename_copy
 from ..util import (has_call, find_calls, assigned_value, const_str, unparse, kw, arg_or_kw, enclosing_stmt,
                     guards_of, call_tail, control_ancestors)
 from .. import mutate as M
@@ -22,6 +22,82 @@ EXPLANATION = ("Key-domain inclusion: a dict built by a comprehension filtered o
 ENC = "coba/encodings.py"
 
 
+def _roles_encode(fn):
+    from ..util import bound_names
+    m = {}
+
+    def put(pred, role):
+        for n in bound_names(fn, pred):
+            m.setdefault(n, role)
+    put(lambda v: isinstance(v, ast.DictComp) and unparse(v.generators[0].iter) == "ns_raw_values.items()" and v.generators[0].ifs, "ns_values")
+    put(lambda v: unparse(v) == "self._pows", "pows")
+    put(lambda v: unparse(v) == "self._cross", "cross")
+    nv = next((k for k, v in m.items() if v == "ns_values"), "ns_values")
+    pw = next((k for k, v in m.items() if v == "pows"), "pows")
+    cr = next((k for k, v in m.items() if v == "cross"), "cross")
+    put(lambda v: isinstance(v, ast.DictComp) and ".keys()" in unparse(v.value) and pw + "(" in unparse(v.value), "key_pows")
+    put(lambda v: isinstance(v, ast.DictComp) and ".keys()" not in unparse(v.value) and pw + "(" in unparse(v.value), "val_pows")
+    kp = next((k for k, v in m.items() if v == "key_pows"), "key_pows")
+    vp = next((k for k, v in m.items() if v == "val_pows"), "val_pows")
+    put(lambda v: isinstance(v, ast.ListComp) and unparse(v.elt).startswith(f"{cr}({kp},"), "key_crosses")
+    put(lambda v: isinstance(v, ast.ListComp) and unparse(v.elt).startswith(f"{cr}({vp},"), "val_crosses")
+    put(lambda v: isinstance(v, ast.Call) and call_name(v) in ("dict", "sum"), "encoded")
+    for x in ast.walk(fn):
+        if isinstance(x, ast.comprehension) and isinstance(x.target, ast.Tuple) and len(x.target.elts) == 2 and unparse(x.iter) == "self._ns_max_pow.items()":
+            m.setdefault(unparse(x.target.elts[0]), "ns")
+            m.setdefault(unparse(x.target.elts[1]), "max_pow")
+        if isinstance(x, ast.comprehension) and isinstance(x.target, ast.Name) and unparse(x.iter) == "self._cross_pows.values()":
+            m.setdefault(x.target.id, "cross_pow")
+    return m
+
+
+def _roles_pows(fn):
+    from ..util import bound_names
+    m = {}
+    for n in bound_names(fn, lambda v: unparse(v) == "[1] * len(values)"):
+        m[n] = "starts"
+    for n in bound_names(fn, lambda v: isinstance(v, ast.IfExp) and "[['']]" in unparse(v)):
+        m[n] = "terms"
+    for x in walk_shallow(fn):
+        if isinstance(x, ast.For) and isinstance(x.target, ast.Name) and unparse(x.iter) == "range(degree)":
+            m[x.target.id] = "d"
+    return m
+
+
+def _roles_cross(fn):
+    from ..util import bound_names
+    m = {}
+    for n in bound_names(fn, lambda v: isinstance(v, ast.ListComp) and "ns_pows[" in unparse(v)):
+        m[n] = "values"
+    vals = next(iter(m), "values")
+    for n in bound_names(fn, lambda v: unparse(v) == f"{vals}[0]"):
+        m[n] = "cross"
+    for x in walk_shallow(fn):
+        if isinstance(x, ast.For) and isinstance(x.target, ast.Name) and unparse(x.iter) == f"{vals}[1:]":
+            m[x.target.id] = "vs"
+    return m
+
+
+def _init(ctx):
+    from ..util import bound_names
+    f = ctx.fn(ENC, "InteractionsEncoder.__init__")
+    m = {}
+    for n in bound_names(f, lambda v: isinstance(v, ast.ListComp) and "isinstance" in unparse(v) and "str" in unparse(v)):
+        m[n] = "str_interactions"
+    for n in bound_names(f, lambda v: isinstance(v, ast.ListComp) and "isinstance" in unparse(v) and "Number" in unparse(v)):
+        m[n] = "num_interactions"
+    return rename_copy(f, m)
+
+
+_ROLES = {"InteractionsEncoder.encode": _roles_encode, "InteractionsEncoder._pows": _roles_pows, "InteractionsEncoder._cross": _roles_cross}
+
+
+def _fn(ctx, qual):
+    f = ctx.fn(ENC, qual)
+    r = _ROLES.get(qual)
+    return rename_copy(f, r(f)) if r else f
+
+
 def run(ctx):
     r1_key_domain(ctx)
     r2_alignment(ctx)
@@ -30,7 +106,7 @@ def run(ctx):
 
 def r1_key_domain(ctx):
     ctx.rule("C20.R1", "InteractionsEncoder.encode: every subscript ns_values[ns] uses a key from an iteration whose domain is included in ns_values' domain")
-    fn = ctx.fn(ENC, "InteractionsEncoder.encode")
+    fn = _fn(ctx, "InteractionsEncoder.encode")
     # domain of ns_values
     defs = [x for x in walk_shallow(fn) if isinstance(x, ast.Assign) and unparse(x.targets[0]) == "ns_values" and isinstance(x.value, ast.DictComp)]
     ctx.floor("C20.R1", "definitions of ns_values", len(defs), 2)
@@ -71,13 +147,14 @@ def r1_key_domain(ctx):
             ctx.ob("C20.R1", ENC, "InteractionsEncoder.encode", x, "the subscripted namespace is always a key of ns_values (a term may name a namespace that was not passed)", ok,
                    detail={"why": why, "filtered_on_M": filtered, "sources": sorted(sources)}, stmt=unparse(comp)[:120] if comp is not None else unparse(x))
     ctx.floor("C20.R1", "subscripts of ns_values", n, 2)
-    cr = ctx.fn(ENC, "InteractionsEncoder._cross")
+    cr = _fn(ctx, "InteractionsEncoder._cross")
     subs = [x for x in walk_shallow(cr) if isinstance(x, ast.Subscript) and unparse(x.value) == "ns_pows" and isinstance(x.ctx, ast.Load)]
     ok = all(isinstance(s.slice, ast.Name) for s in subs) and bool(subs)
     # ns_pows (val_pows/key_pows) is built over M, cross_pow keys are namespaces of one term (subset of M by construction of _ns_max_pow)
-    init = ctx.fn(ENC, "InteractionsEncoder.__init__")
+    init = _init(ctx)
     mp = [x for x in walk_shallow(init) if isinstance(x, ast.Assign) and any(is_self_attr(t, "_ns_max_pow") for t in x.targets)]
-    ok2 = len(mp) == 1 and "for n in set(''.join(str_interactions))" in unparse(mp[0].value)
+    ok2 = len(mp) == 1 and isinstance(mp[0].value, ast.DictComp) and unparse(mp[0].value.generators[0].iter) == "set(''.join(str_interactions))" \
+        and unparse(mp[0].value.key) == unparse(mp[0].value.generators[0].target)
     ctx.ob("C20.R1", ENC, "InteractionsEncoder.__init__", mp[0] if mp else init, "_ns_max_pow has an entry for every namespace letter of every term (so per-term look-ups in *_pows cannot miss)", ok and ok2,
            stmt="_ns_max_pow domain")
 
@@ -110,7 +187,7 @@ def r2_alignment(ctx):
     ctx.rule("C20.R2", "the string (key) arm and the numeric (value) arm of _pows and of _cross have the same iteration skeleton; the sparse "
                        "path derives keys and values from the same dict and crosses both over the same terms")
     for qual, test in (("InteractionsEncoder._pows", "isinstance(values[0], str)"), ("InteractionsEncoder._cross", "isinstance(cross[0], str)")):
-        fn = ctx.fn(ENC, qual)
+        fn = _fn(ctx, qual)
         arms = [x for x in walk_shallow(fn) if isinstance(x, ast.If) and unparse(x.test) == test and x.orelse]
         ok, d = False, {}
         if len(arms) == 1:
@@ -126,7 +203,7 @@ def r2_alignment(ctx):
                 w2 = unparse(arms[0].orelse[0]).replace(unparse(c2[0]), "COMP")
                 ok = ok and w1 == w2
         ctx.ob("C20.R2", ENC, qual, arms[0] if arms else fn, "both arms iterate identically and differ only in the element operator (concatenate vs multiply)", ok, detail=d, stmt=f"{qual} arms")
-    fn = ctx.fn(ENC, "InteractionsEncoder.encode")
+    fn = _fn(ctx, "InteractionsEncoder.encode")
     kp = assigned_value(fn, "key_pows")
     vp = [v for v in assigned_value(fn, "val_pows") if ".values()" in unparse(v)]
     ok = len(kp) == 1 and len(vp) == 1 and unparse(kp[0]).replace(".keys()", ".X()") == unparse(vp[0]).replace(".values()", ".X()")
@@ -146,7 +223,7 @@ def r2_alignment(ctx):
     forms = sorted(unparse(x.body[0]) for x in const)
     ctx.ob("C20.R2", ENC, "InteractionsEncoder.encode", const[0] if const else fn, "the constant comes first (dense) / under its own key (sparse)",
            forms == ["encoded = [self._constant] + encoded", "encoded['const'] = self._constant"], detail={"forms": forms}, stmt="constant placement")
-    init = ctx.fn(ENC, "InteractionsEncoder.__init__")
+    init = _init(ctx)
     cp = [x for x in walk_shallow(init) if isinstance(x, ast.Assign) and any(is_self_attr(t, "_cross_pows") for t in x.targets)]
     ok = len(cp) == 1 and unparse(cp[0].value).startswith("OrderedDict(zip(") and "map(Counter, str_interactions)" in unparse(cp[0].value)
     ctx.ob("C20.R2", ENC, "InteractionsEncoder.__init__", cp[0] if cp else init, "terms are kept in the order given, each as namespace -> power", ok, stmt="_cross_pows order")
@@ -154,7 +231,7 @@ def r2_alignment(ctx):
 
 def r3_none_normalisation(ctx):
     ctx.rule("C20.R3", "a namespace is replaced by the empty vector only when it `is None` -- a scalar 0, 0.0 or '' is a vector of length one, not a missing namespace")
-    fn = ctx.fn(ENC, "InteractionsEncoder.encode")
+    fn = _fn(ctx, "InteractionsEncoder.encode")
     norms = [x for x in walk_shallow(fn) if isinstance(x, ast.Assign) and unparse(x.targets[0]) == "ns_raw_values" and isinstance(x.value, ast.DictComp)]
     ctx.floor("C20.R3", "namespace normalisations", len(norms), 1)
     for x in norms:
